@@ -345,3 +345,27 @@ VARIANTS += [
  dict(name='writer-truncates-before-close', file=F, expect='flagged(writer/protocol)',
       find='\t// close before moving\n', replace='\tif err := tempFile.Truncate(int64(len(content) &^ 4095)); err != nil {\n\t\treturn err\n\t}\n'),
 ]
+
+# ---- third pass: the read step of Get in a helper of the package (extract-helper at the read boundary)
+READ_OLD = ('\tcontentBytes, err := os.ReadFile(filepath.Join(c.root, c.fileName(url)))\n\tif err != nil {\n\t\tif errors.Is(err, fs.ErrNotExist) {\n\t\t\tlogger.Debugf("CRL file cache miss. Key %q does not exist", url)\n\t\t\treturn nil, corecrl.ErrCacheMiss\n\t\t}\n'
+            '\t\treturn nil, fmt.Errorf("failed to get crl bundle from file cache with key %q: %w", url, err)\n\t}\n')
+def read_helper(call='\tcontentBytes, err := c.readEntry(logger, url)\n\tif err != nil {\n\t\treturn nil, err\n\t}\n', body=READ_OLD, ret='\treturn contentBytes, nil\n', imports=None):
+    e = [(C, READ_OLD, call), (C, SET_DOC, '// readEntry reads the entry stored for url\nfunc (c *FileCache) readEntry(logger log.Logger, url string) ([]byte, error) {\n' + body + ret + '}\n\n' + SET_DOC)]
+    if imports:
+        e.append((C, '\t"path/filepath"\n', '\t"path/filepath"\n' + imports))
+    return e
+VARIANTS += [
+ dict(name='benign-get-read-helper', expect='silent', edits=read_helper(),
+      why='the one read stands in a helper called once, of Join(root, key(url)) read in Get\'s frame; what the helper hands back is nil or the content of that read, and that is what Get decodes'),
+ dict(name='benign-get-read-helper-params-swapped', expect='silent',
+      edits=[(C, READ_OLD, '\tcontentBytes, err := c.readEntry(url, logger)\n\tif err != nil {\n\t\treturn nil, err\n\t}\n'),
+             (C, SET_DOC, '// readEntry reads the entry stored for key\nfunc (c *FileCache) readEntry(key string, logger log.Logger) ([]byte, error) {\n' + READ_OLD.replace('url', 'key') + '\treturn contentBytes, nil\n}\n\n' + SET_DOC)]),
+ dict(name='read-helper-stats-first', expect='flagged(reader/single-whole-file-read)',
+      edits=read_helper(body='\tif _, statErr := os.Stat(filepath.Join(c.root, c.fileName(url))); statErr != nil {\n\t\treturn nil, corecrl.ErrCacheMiss\n\t}\n' + READ_OLD)),
+ dict(name='read-helper-called-twice', expect='flagged(reader/single-whole-file-read)',
+      edits=read_helper(call='\tif _, err := c.readEntry(logger, url); err != nil {\n\t\treturn nil, err\n\t}\n\tcontentBytes, err := c.readEntry(logger, url)\n\tif err != nil {\n\t\treturn nil, err\n\t}\n')),
+ dict(name='read-helper-reads-key-of-lowered-url', expect='flagged(reader/single-whole-file-read)', edits=read_helper(body=READ_OLD.replace('c.fileName(url)', 'c.fileName(strings.ToLower(url))'), imports='\t"strings"\n')),
+ dict(name='read-helper-returns-a-prefix', expect='flagged(reader/decodes-those-bytes)', edits=read_helper(ret='\treturn contentBytes[:len(contentBytes)&^511], nil\n')),
+ dict(name='read-helper-returns-cached-copy', expect='flagged(reader/decodes-those-bytes)',
+      edits=read_helper(ret='\tif len(lastEntry) > len(contentBytes) {\n\t\treturn lastEntry, nil\n\t}\n\tlastEntry = contentBytes\n\treturn contentBytes, nil\n') + [(C, '// NewFileCache creates a FileCache', 'var lastEntry []byte\n\n// NewFileCache creates a FileCache')]),
+]
